@@ -28,6 +28,9 @@ def cases(tier, seed):
         if tier == 'quick' and (nq, nr) == (9, 7) and basis == 'nu' and pot in ('const', 'dense', 'vortex'):
             continue
         out.append({'kind': 'step', 'nq': nq, 'nr': nr, 'basis': basis, 'pot': pot, 'nul': nul, 'explicit': expl, 'tier': tier, 'cost': 50 if expl else 200})
+    # a potential that depends on theta only (purely radial drift), both schemes and boundary modes
+    for basis, nul, expl in itertools.product(('cu', 'nu'), (False, True), (True, False)):
+        out.append({'kind': 'step', 'nq': 8, 'nr': 6, 'basis': basis, 'pot': 'thetaonly', 'nul': nul, 'explicit': expl, 'tier': tier, 'cost': 50 if expl else 200})
     if tier == 'quick':
         # theta and r splines of different degree and knots (2 and 4): arguments of the two directions must not be interchangeable
         for nul, expl in itertools.product((False, True), (True, False)):
@@ -157,6 +160,9 @@ def _potential(name, Q, R, c, amp=None):
         # drift concentrated around theta = pi: almost no motion on the last theta rows, so a convergence test that
         # looks at part of the grid only stops the implicit iteration too early
         return 0.25 * np.exp(-((Q - np.pi) ** 2) / 0.4) * (R - rmin) * (c.rMax - R) / 10.0
+    if name == 'thetaonly':
+        # depends on theta only: the drift is purely radial (inward on one half of the plane, outward on the other)
+        return 0.6 * np.cos(Q) + 0.25 * np.sin(2 * Q + 0.4)
     if name == 'shear':
         return amp * np.cos(2 * Q) * (R - rmin)
     raise KeyError(name)
